@@ -224,6 +224,13 @@ def stepLine (T : Tun) (o : Objs) (w : List String) : Objs × String :=
         (o.set' d ob', if mark == "throw" then "throw" else obsS T ob' mark)
       | _, _ => (o, "throw")
     | _, _ => (o, "bad-op")
+  | ["copy", id, nid] =>
+    match id.toNat?, nid.toNat? with
+    | some id, some nid =>
+      match o.get' id with
+      | some ob => (o.set' nid ob, obsS T ob)
+      | none => (o, "throw")
+    | _, _ => (o, "bad-op")
   | ["ser", id, nid, _mode] =>
     match id.toNat?, nid.toNat? with
     | some id, some nid =>
